@@ -7,6 +7,7 @@ import (
 	"net"
 	"net/url"
 	"sort"
+	"strconv"
 	"strings"
 	"time"
 
@@ -132,6 +133,9 @@ func expectedURI(override, nodeID, connAddr string) (hostport string, refuse boo
 	}
 	if ip := net.ParseIP(host); host == "" || (ip != nil && ip.IsUnspecified()) {
 		return "", true
+	}
+	if n, err := strconv.Atoi(port); err != nil || n < 1 || n > 65535 {
+		return "", true // not an address anybody can dial
 	}
 	return net.JoinHostPort(host, port), false
 }
